@@ -147,6 +147,13 @@ class Env:
             with open(n, "w") as f:
                 f.write(text)
         os.symlink(j("deep", "inner"), j("link_in"))
+        # names that differ in case only; a directory with the sticky bit (mode digits beyond 0777)
+        os.mkdir(j("dir_case"))
+        for n in ("README", "readme", "Makefile", "makefile"):
+            with open(j("dir_case", n), "w") as f:
+                f.write(n)
+        os.mkdir(j("dir_sticky"))
+        os.chmod(j("dir_sticky"), 0o1755)
         with tarfile.open(j("t.tar"), "w") as t:
             t.add(j("file_a"), "p")
             t.add(j("dir_d", "x"), "q/r")
@@ -168,7 +175,8 @@ class Env:
 
 
 PATH_NAMES = ["file_a", "file_e", "file_m", "dir_d", "dir_empty", "link_a", "t.tar", "t1.tar",
-              "missing", "dir_d/x", "dir_d/../file_a", "file_bin", "link_in/../file_q", "deep/file_q", "file_q"]
+              "missing", "dir_d/x", "dir_d/../file_a", "file_bin", "link_in/../file_q", "deep/file_q", "file_q",
+              "dir_case", "dir_sticky"]
 
 
 def mkvalue(v, env):
@@ -549,6 +557,8 @@ def sem(e, v, env, raw=None):
         if not issubclass(etype, Exception):
             raise Propagates(etype)
         return True
+    if op in ("Warnings", "IsDeprecated") and "raise" in raw[1]:
+        raise Propagates(EXC_TYPES[raw[1]["raise"][0]])     # what the callable raises leaves match()
     if op == "Warnings":
         ws = warnings_of(raw[1])
         if e[1] is None:
@@ -624,12 +634,16 @@ CALL_BASE_POOL = [{"raise": ["KeyboardInterrupt", ["kb"]]}, {"raise": ["SystemEx
 WARNCALL_POOL = [{"ret": 1}, {"warn": [["DeprecationWarning", "old foo"]], "ret": 2},
                  {"warn": [["UserWarning", "careful"], ["DeprecationWarning", "old foo"]]},
                  {"warn": [["DeprecationWarning", "use bar \xe9"]]},
-                 {"warn": [["RuntimeWarning", "x"], ["RuntimeWarning", "x"]]}]
+                 {"warn": [["RuntimeWarning", "x"], ["RuntimeWarning", "x"]]},
+                 # a callable that warns and then breaks
+                 {"warn": [["UserWarning", "before the crash"]], "raise": ["ValueError", ["x"]]}]
 LSTR_POOL = [[], ["x"], ["x", "y"], ["y", "x"], ["a", "a"], ["x", "y", "z"]]
 REGEXES = [["a", 0], ["a.*c", 0], ["^$", 0], ["[ab]+$", 0], ["\xe9", 0], ["A", re.I], ["a.b", re.S],
            ["line1$", re.M], [".*\\\\", 0],
            # the same patterns with other flags: a verdict must not depend on matchers built earlier
-           ["A", 0], ["a", re.I], ["a.b", 0], ["line1$", 0]]
+           ["A", 0], ["a", re.I], ["a.b", 0], ["line1$", 0],
+           # patterns holding the characters string formatting treats specially
+           ["a{2}", 0], ["[}{]", 0], ["100%", 0], ["%s", 0]]
 
 
 def values_of(domain):
@@ -731,6 +745,10 @@ def leaves(domain, rng=None):
              ["DirContains", []], ["DirContains", ["x"]], ["SamePath", "file_a"], ["SamePath", "dir_d/x"],
              ["SamePath", "deep/file_q"], ["SamePath", "link_in/../file_q"], ["SamePath", "file_q"],
              ["FileContains", ""], ["FileContains", "hello"], ["FileContainsM", ["Equals", ""]],
+             ["DirContains", ["readme", "README", "makefile", "Makefile"]],
+             ["DirContains", ["Makefile", "makefile", "README", "readme"]], ["DirContains", ["README", "Makefile"]],
+             ["DirContainsM", ["Equals", ["Makefile", "README", "makefile", "readme"]]],
+             ["HasPermissions", "1755"], ["HasPermissions", "0755"], ["HasPermissions", "0644"],
              ["Always"], ["Never"]]
     return L
 
@@ -797,8 +815,16 @@ def random_expr(rng, domain, depth):
 
 def domain_values(expr_domain, expr):
     """Values an expression of this domain may be applied to (restricting partial matchers)."""
-    if expr_domain == "call" and uses(expr, ("Warnings", "IsDeprecated")):
-        return values_of("warncall")
+    if expr_domain in ("call", "warncall") and (expr_domain == "warncall" or uses(expr, ("Warnings", "IsDeprecated"))):
+        vals = values_of("warncall")
+        e = expr
+        while e[0] in ("Not", "Annotate"):
+            e = e[1] if e[0] == "Not" else e[2]
+        if e[0] not in ("Warnings", "IsDeprecated"):
+            # (which sub-matchers a combinator consults before one raises is not specified: the callable that warns and
+            # then breaks is only offered where calling it is the first thing that happens)
+            vals = [v for v in vals if "raise" not in v[1]]
+        return vals
     if expr_domain == "path":
         vals = values_of("path")
         if uses(expr, ("FileContains", "FileContainsM")):
